@@ -282,7 +282,8 @@ def replay(obj):
     if "source" in x:
         def parse(s):
             p = s.split(":"); return tuple([p[0], p[1]] + [int(v) for v in p[2:]])
-        got = e2e_run(x["source"], [parse(a) for a in x["args"]])
+        args = [parse(a) for a in x["args"]]
+        got = e2e_run(x["source"], {"a0": args[0], "b0": args[1]} if " b0" in x["source"] else args)
         return got == x["expected"], "returns %r, expected %r" % (got, x["expected"])
     def parse(s):
         p = s.split(":"); return tuple([p[0], p[1]] + [int(v) for v in p[2:]])
